@@ -156,6 +156,7 @@ class AsyncFIXConnection:
         self._port = int(port)
         self._aio_task_socket_read = None
         self._aio_task_heartbeat = None
+        self._disconnect_in_progress: asyncio.Future | None = None
 
     @property
     def connection_state(self) -> ConnectionState:
@@ -196,8 +197,18 @@ class AsyncFIXConnection:
             logout_message: if not None, sends Logout() message to peer with
                             (58=logout_message)
         """
-        if self._connection_state > ConnectionState.DISCONNECTED_BROKEN_CONN:
-            assert disconn_state <= ConnectionState.DISCONNECTED_BROKEN_CONN
+        if self._disconnect_in_progress is not None:
+            # Another task is already disconnecting (suspended in drain() or in
+            #   wait_closed()): wait for it, the disconnect is reported only once
+            await self._disconnect_in_progress
+            return
+
+        if self._connection_state <= ConnectionState.DISCONNECTED_BROKEN_CONN:
+            return
+
+        assert disconn_state <= ConnectionState.DISCONNECTED_BROKEN_CONN
+        self._disconnect_in_progress = asyncio.get_running_loop().create_future()
+        try:
             self._test_req_id = None
             self._message_last_time = 0.0
             self._max_seq_num_resend = 0
@@ -221,8 +232,11 @@ class AsyncFIXConnection:
                     pass
             self._socket_writer = None
             self._socket_reader = None
-            await self._state_set(disconn_state)
-            await self.on_disconnect()
+        finally:
+            self._disconnect_in_progress.set_result(None)
+            self._disconnect_in_progress = None
+        await self._state_set(disconn_state)
+        await self.on_disconnect()
 
     async def send_msg(self, msg: FIXMessage):
         """Sends message to the peer.
